@@ -1,5 +1,6 @@
 (* C03 — generated types follow the documented field/arity mapping. *)
 From PegV Require Import Utf8 Utf8Facts State Terminals Syntax Fields FieldsFacts GetFieldsFacts TypesFacts Literals Model Spec ShapeFacts Arity Compile Sim Conform ConformX Extracted.
+From PegV Require WellFormed TermModel MemoEq MemoSpec MemoTerm.
 
 Theorem C03_facts :
   fcfg_sound Extracted.fcfg = true /\
@@ -127,3 +128,35 @@ Proof.
   rewrite E in C. cbn in C. apply C. reflexivity.
 Qed.
 Print Assumptions C03_templates_agree_with_declarations.
+
+(* The same for grammars with any subset of rules marked @memoize (no @leftrec rule) that pass the
+   well-formedness check of C01: the memoized parser fails at a panic site only where the parser of
+   the unmarked grammar fails at the SAME site (MemoEq: the relation between the two runs keeps
+   the site), the unmarked parser returns (C01_terminates) and is free of shape mismatches (above). *)
+Theorem C03_templates_agree_memoized :
+  forall (ustate : Type) (hk : hooks ustate) (shk : shooks) (g : grammar) (nul : name -> bool) (rk : WellFormed.runit -> nat),
+    pure_hooks ustate hk shk ->
+    (forall r, In (GRule r) g -> fl_left_recursive (flags_of (r_directives r)) = false) ->
+    WellFormed.wf_check g nul rk = true ->
+    forall fuel rule_name cs u, all_scalar cs ->
+      fst (m_parse ustate Extracted.scfg Extracted.tcfg Extracted.fcfg Extracted.rcfg hk g
+                   fuel rule_name (encode_str cs) u) <> MPanic PanicShape.
+Proof.
+  intros ustate hk shk g nul rk Hp NoLR WF fuel rule_name cs u Hs E.
+  pose proof WF as WF'. rewrite <- MemoTerm.wf_check_strip in WF'.
+  destruct (TermModel.model_terminates ustate Extracted.scfg Extracted.fcfg Extracted.rcfg hk shk (MemoEq.strip g)
+              eq_refl eq_refl eq_refl Hp (MemoSpec.strip_plain g NoLR) nul rk WF' rule_name cs u Hs) as [F H].
+  destruct (H F (Nat.le_refl F)) as [H1 _]. change term_cfg_expected with Extracted.tcfg in H1.
+  destruct Hp as [P1 [P2 P3]].
+  assert (Pc : forall f v u0 u', fst (h_check hk f v u0) = fst (h_check hk f v u')) by (intros; rewrite !P1; reflexivity).
+  assert (Pe : forall f bs u0 u', fst (h_extern hk f bs u0) = fst (h_extern hk f bs u')) by (intros; rewrite !P3; reflexivity).
+  pose proof (MemoEq.memoize_transparent ustate Extracted.scfg Extracted.tcfg Extracted.fcfg Extracted.rcfg hk g (encode_str cs)
+                NoLR Pc Pe fuel F rule_name u u) as W.
+  rewrite E in W.
+  pose proof (C03_templates_agree_with_declarations ustate hk shk (MemoEq.strip g) (conj P1 (conj P2 P3))
+                (MemoSpec.strip_plain g NoLR) F rule_name cs u Hs) as N.
+  destruct (fst (m_parse ustate Extracted.scfg Extracted.tcfg Extracted.fcfg Extracted.rcfg hk (MemoEq.strip g) F rule_name (encode_str cs) u))
+    as [v2 s2|e2|p2|]; cbn in W; try contradiction.
+  subst p2. apply N. reflexivity.
+Qed.
+Print Assumptions C03_templates_agree_memoized.
